@@ -38,19 +38,30 @@ def is_uniform(e: ast.AST, rn: Dict[str, ast.AST]) -> bool:
 
 def bernoulli_sites(rep: Report, fi: FuncInfo, prob_attr: str) -> int:
     """Check every comparison that involves a uniform draw; returns the number of sites."""
-    rn = rand_names(fi)
     n = 0
-    for c in ast.walk(fi.node):
+    # the draw may be made in a module-level helper called from here: its comparisons are judged with the helper's
+    # parameters read as the caller's arguments
+    sites = [(c, fi, {}, rand_names(fi)) for c in ast.walk(fi.node)]
+    for call in [c for c in ast.walk(fi.node) if isinstance(c, ast.Call) and isinstance(c.func, ast.Name) and c.func.id in fi.module.functions]:
+        hf = fi.module.functions[call.func.id]
+        hp = [a.arg for a in hf.node.args.args]
+        subst = {p_: a_ for p_, a_ in zip(hp, call.args)}
+        subst.update({k.arg: k.value for k in call.keywords if k.arg in hp})
+        hrn = rand_names(hf)
+        sites += [(c, hf, subst, hrn) for c in ast.walk(hf.node)]
+    for c, owner, subst, rn in sites:
         if not isinstance(c, ast.Compare) or len(c.ops) != 1:
             continue
         l, r, op = c.left, c.comparators[0], c.ops[0]
         if not (is_uniform(l, rn) or is_uniform(r, rn)):
             continue
         n += 1
-        construct = f"indicator: {unparse(c)}"
+        construct = f"indicator: {unparse(c)}" + (f" (in {owner.name})" if owner is not fi else "")
         u_left = is_uniform(l, rn)
         other = r if u_left else l
         good_op = isinstance(op, ast.Lt) if u_left else isinstance(op, ast.Gt)
+        if isinstance(other, ast.Name) and other.id in subst:
+            other = subst[other.id]
         if isinstance(other, ast.Name):
             # a local naming the probability (`p = self.error_prob`): its only definition decides
             ds_ = [s_.value for s_ in ast.walk(fi.node) if isinstance(s_, ast.Assign) and len(s_.targets) == 1 and isinstance(s_.targets[0], ast.Name) and s_.targets[0].id == other.id]
@@ -433,6 +444,8 @@ def digital_history_evaluated(repo: Repo, cname: str, prob_param: str, kind: str
             if any(isinstance(b, ast.BinOp) and isinstance(b.op, (ast.Add, ast.Sub)) and any(isinstance(o, ast.Name) and o.id == nm_ for o in (b.left, b.right)) for b in ast.walk(fi.node)):
                 return None, "a comparison result is used arithmetically (bool-typed arithmetic is not modelled)", 0
     funcs = {f"self.{nm}": m.node for nm, m in ci.methods.items() if nm not in ("forward", "__init__")}
+    mod_funcs = {nm: f.node for nm, f in ci.module.functions.items()}  # module-level helpers the forward may call
+    funcs.update(mod_funcs)
     flat_draws = [d for r in BSC_DRAWS for d in r]
     mode = []
 
@@ -510,7 +523,7 @@ def digital_history_evaluated(repo: Repo, cname: str, prob_param: str, kind: str
                             break
     finally:
         scope.__exit__()
-    gap = scope.note([fi.node] + [f.node for nm, f in ci.methods.items() if f"self.{nm}" in funcs and any(isinstance(c, ast.Call) and attr_chain(c.func) == f"self.{nm}" for c in ast.walk(fi.node))])
+    gap = scope.note([fi.node] + [f.node for nm, f in ci.methods.items() if f"self.{nm}" in funcs and any(isinstance(c, ast.Call) and attr_chain(c.func) == f"self.{nm}" for c in ast.walk(fi.node))] + [nd for nm, nd in mod_funcs.items() if any(isinstance(c, ast.Call) and isinstance(c.func, ast.Name) and c.func.id == nm for c in ast.walk(fi.node))])
     if bad["lt"] and bad["ge"]:
         first = bad["lt"] if len(bad["lt"]) <= len(bad["ge"]) else bad["ge"]
         return VIOLATION, {"z": "Z-channel", "bec": "erasure channel", "bsc": "symmetric channel"}[kind] + " output is not the block with exactly the drawn symbols replaced, in the block's own alphabet: " + "; ".join(first[:2]), words
